@@ -40,6 +40,10 @@ type scenario struct {
 	// NilItems: the collection holds nil-valued items — every item whose number is a multiple of 3 is handed out by the
 	// page's iterator as a nil interface value (with a nil error); a nil item is an item like any other
 	NilItems bool `json:"nil_items,omitempty"`
+	// FailWithPage: what a FAILING page fetch returns next to its error — 0: a nil page; 1: a non-nil junk page (items
+	// -100, -101: a partial / stale answer); 2: a typed-nil page inside a non-nil interface. The error decides: a
+	// failed fetch is a failed fetch whatever came with it.
+	FailWithPage int `json:"fail_with_page,omitempty"`
 }
 
 type world struct {
@@ -49,6 +53,7 @@ type world struct {
 	stop       func() // stops the paginator (set once it exists)
 	stoppedBy  int    // number of fetches that stopped the paginator
 	nilItems   bool   // see scenario.NilItems
+	failWith   int    // see scenario.FailWithPage
 	lastNil    int64  // the number of the item most recently handed out as nil
 }
 
@@ -92,7 +97,7 @@ func (p *pg) fetchNext() (*pg, error) {
 		return nil, errors.New("harness: no next page")
 	}
 	if p.next.spec.Kind == kFetchFail {
-		return nil, errors.New("harness: fetch failure")
+		return p.w.failedPage(), errors.New("harness: fetch failure")
 	}
 	if p.next.spec.StopOnFetch && p.w.stop != nil {
 		p.w.stop()
@@ -103,9 +108,20 @@ func (p *pg) fetchNext() (*pg, error) {
 func (p *pg) GetNext(ctx context.Context) (pagination.IPage, error) {
 	n, err := p.fetchNext()
 	if err != nil {
-		return nil, err
+		if p.w.failWith == 0 {
+			return nil, err
+		}
+		return n, err // a junk page, or a typed nil, next to the error
 	}
 	return n, nil
+}
+
+// failedPage: the page value a failing fetch hands back together with its error
+func (w *world) failedPage() *pg {
+	if w.failWith == 1 {
+		return &pg{spec: pageSpec{Items: []int64{-100, -101}}, w: w}
+	}
+	return nil
 }
 
 // HasFuture is page-specific: the future link is carried by the pages at which the traversal of the current chain can
@@ -128,13 +144,16 @@ func (p *pg) fetchFuture() (*pg, error) {
 		return nil, nil
 	}
 	if f.spec.Kind == kFetchFail {
-		return nil, errors.New("harness: future fetch failure")
+		return p.w.failedPage(), errors.New("harness: future fetch failure")
 	}
 	p.w.nextFuture++
 	return f, nil
 }
 func (p *pg) GetFuture(ctx context.Context) (pagination.IStream, error) {
 	n, err := p.fetchFuture()
+	if err != nil && p.w.failWith != 0 {
+		return n, err // a junk page, or a typed nil, next to the error
+	}
 	if err != nil || n == nil {
 		return nil, err
 	}
@@ -178,7 +197,7 @@ func errKind(err error) string {
 // execute runs the scenario on the real paginator; outs has one entry per op.
 func execute(sc scenario) (ctorOK bool, ctorNilNil bool, outs []string, stopAt int) {
 	stopAt = -1
-	w := &world{nilItems: sc.NilItems}
+	w := &world{nilItems: sc.NilItems, failWith: sc.FailWithPage}
 	first := chain(w, sc.Pages)
 	for _, f := range sc.Futures {
 		if len(f) == 1 && f[0].Kind == kNilPage {
@@ -202,12 +221,18 @@ func execute(sc scenario) (ctorOK bool, ctorNilNil bool, outs []string, stopAt i
 	staticNext := func(_ context.Context, cur pagination.IStaticPage) (pagination.IStaticPage, error) {
 		n, err := cur.(*pg).fetchNext()
 		if err != nil {
-			return nil, err
+			if w.failWith == 0 {
+				return nil, err
+			}
+			return n, err
 		}
 		return n, nil
 	}
 	staticFuture := func(_ context.Context, cur pagination.IStaticPageStream) (pagination.IStaticPageStream, error) {
 		n, err := cur.(*pg).fetchFuture()
+		if err != nil && w.failWith != 0 {
+			return n, err
+		}
 		if err != nil || n == nil {
 			return nil, err
 		}
@@ -895,6 +920,19 @@ func main() {
 			Ops: []string{"G", "H", "H", "G", "G", "G", "H"}}, true)
 	}
 	n := r.N(600, 20000)
+	// a failing next-page / future-page fetch that hands back a page value next to its error (junk page, typed nil)
+	for _, k := range kinds {
+		for fw := 1; fw <= 2; fw++ {
+			sc := scenario{Paginator: k, FailWithPage: fw, Pages: []pageSpec{{Items: []int64{1, 2}}, {Kind: kFetchFail}, {Items: []int64{3}}},
+				Ops: []string{"G", "G", "H", "G", "H", "G", "H"}}
+			runScenario(r, sc, true)
+			if strings.HasSuffix(k, "stream") {
+				sc = scenario{Paginator: k, FailWithPage: fw, Elapsed: true, Pages: []pageSpec{{Items: []int64{1}}},
+					Futures: [][]pageSpec{{{Items: []int64{2}}}, {{Kind: kFetchFail}}}, Ops: []string{"G", "H", "G", "H", "G", "H", "D", "H", "G", "H"}}
+				runScenario(r, sc, true)
+			}
+		}
+	}
 	// collections with nil-valued items (a nil item is an item): every paginator kind, items on first, next and future pages
 	for _, k := range kinds {
 		sc := scenario{Paginator: k, NilItems: true, Pages: []pageSpec{{Items: []int64{3, 1, 6}}, {}, {Items: []int64{9, 2}}, {Items: []int64{12}}},
@@ -944,6 +982,10 @@ func main() {
 		_ = stopOnFetch
 		sc.Ops = genOps(r, stream, int(base)+2*nilPages)
 		sc.NilItems = r.Rng.Intn(4) == 0
+		if failures {
+			sc.FailWithPage = r.Rng.Intn(3)
+			r.Count(fmt.Sprintf("failed-fetch-returns=%d", sc.FailWithPage))
+		}
 		if sc.NilItems {
 			r.Count("nil-valued-items")
 		}
